@@ -7,6 +7,7 @@ from ..effects import FunctionEffects
 from .. import nf, lib
 from ..selftest import Mutant, Benign
 from . import _c04_flow as fl
+from . import _c08_policy as pol
 
 ID = 'C08'
 BASE = 'mitxgraders/baseclasses.py'
@@ -44,6 +45,59 @@ def check(ctx):
     d2_selection(ctx, idx, info)
     d3_wrong_msg(ctx, idx, info)
     d4_copy(ctx, idx, info)
+    d5_alternative_errors(ctx, idx)
+
+
+def d5_alternative_errors(ctx, idx):
+    """A matrix-related error raised while ONE alternative is compared is graded as a zero-credit result of that alternative
+    (so that the other alternatives still compete) exactly when the configuration says so; decided over the complete
+    domain (suppress_matrix_messages, shape_errors, answer_shape_mismatch.is_raised) x error class."""
+    r = ctx.rule('D5.ALTERROR', 'MatrixGrader.check_response turns matrix errors of one alternative into a zero-credit result / '
+                 're-raises them as configured (suppress_matrix_messages, shape_errors, answer_shape_mismatch.is_raised)', floor=4)
+    with r:
+        q = 'mitxgraders.formulagrader.matrixgrader.MatrixGrader.check_response'
+        if not idx.has_func(q):
+            r.undecided('MatrixGrader.check_response', 'no per-alternative override found (see D1 for an override of check)', '')
+            return
+        fi = idx.func(q)
+        sup = [c for c in lib.calls_named(fi.node, 'check_response') if isinstance(c.func, ast.Attribute) and isinstance(c.func.value, ast.Call)
+               and nf.callee_name(c.func.value) == 'super']
+        trs = [t for c in sup for t in lib.enclosing_trys(c)]
+        if len(sup) != 1 or len(trs) != 1:
+            r.undecided('MatrixGrader.check_response', 'expected one try around super().check_response(...), found %d' % len(trs), fi.loc)
+            return
+        try:
+            table = pol.decide(idx, fi, trs[0])
+        except pol.Unknown as e:
+            r.undecided('MatrixGrader.check_response', 'handler layout outside the recognised forms (%s)' % e, lib.loc(fi, trs[0]))
+            return
+        names = {pol.SHAPE: 'ShapeError (MathArrayShapeError)', pol.INPUT: 'InputTypeError', pol.ARGSHAPE: 'ArgumentShapeError',
+                 pol.MATHARRAY: 'MathArrayError'}
+        for qual, label in names.items():
+            wrong = [(k, v) for k, v in sorted(table.items(), key=lambda kv: str(kv[0])) if k[3] == qual and v != pol.expected(*k)]
+            construct = 'MatrixGrader.check_response: %s' % label
+            if not wrong:
+                r.ok(construct, 'graded / re-raised as configured in all 8 configurations', lib.loc(fi, trs[0]))
+                continue
+            (sp, she, isr, _), got = wrong[0]
+            want = pol.expected(sp, she, isr, qual)
+            cfgtxt = 'suppress_matrix_messages=%s, shape_errors=%s, answer_shape_mismatch.is_raised=%s' % (sp, she, isr)
+
+            def say(o):
+                if o == ('raise',):
+                    return 'raised to the student'
+                if isinstance(o, tuple) and o and o[0] == 'result':
+                    return 'graded as {ok: %r, grade_decimal: %r, msg: %s}' % (o[1], o[2], 'the error text' if o[3] == 'TEXT-OF-ERROR' else repr(o[3]))
+                return 'neither graded nor raised (%r)' % (o,)
+            firstmatch = any(isinstance(n, ast.Call) and nf.callee_name(n) == 'next' for h in trs[0].handlers for n in ast.walk(h))
+            hint = (' [the handler picks the FIRST policy row whose configuration test holds and only then checks whether that row covers '
+                    'the error class: a later row that does cover it is never consulted]' if firstmatch and got == ('raise',) else '')
+            r.violation(construct, ('with %s a %s while comparing one alternative is %s, but must be %s: %s (%d of 8 configurations differ)'
+                                    + hint.replace('%', '%%'))
+                        % (cfgtxt, label, say(got), say(want),
+                           'the whole submission then fails with that error although another alternative may earn credit'
+                           if got == ('raise',) else 'the error is hidden from / shown to the student against the configuration',
+                           len(wrong)), lib.loc(fi, trs[0]), expected=say(want), found=say(got))
 
 
 class Info(object):
@@ -1062,6 +1116,10 @@ MUTANTS = [
     Mutant('seeded-matrix-errors-handled-per-submission', 'mitxgraders/formulagrader/matrixgrader.py',
            "    def check_response(self, answer, student_input, **kwargs):\n        try:\n            with MathArray.enable_negative_powers(self.config['negative_powers']):\n                result = super(MatrixGrader, self).check_response(answer, student_input, **kwargs)",
            "    def check(self, answers, student_input, **kwargs):\n        try:\n            with MathArray.enable_negative_powers(self.config['negative_powers']):\n                result = super(MatrixGrader, self).check(answers, student_input, **kwargs)", 'D1'),
+    Mutant('input-type-error-never-graded', 'mitxgraders/formulagrader/matrixgrader.py', "            elif self.config['answer_shape_mismatch']['is_raised']:\n                raise\n            else:\n                return {'ok': False, 'grade_decimal': 0, 'msg': str(err)}",
+           "            else:\n                raise", 'D5'),
+    Mutant('shape-errors-switch-inverted', 'mitxgraders/formulagrader/matrixgrader.py', "            elif self.config['shape_errors']:\n                raise", "            elif not self.config['shape_errors']:\n                raise", 'D5'),
+    Mutant('seeded-policy-table-selected-before-coverage', 'mitxgraders/formulagrader/matrixgrader.py', [('class MatrixGrader(FormulaGrader):\n', "MATRIX_ERRORS = (ShapeError, InputTypeError, ArgumentShapeError, MathArrayError)\nErrorPolicy = namedtuple('ErrorPolicy', ['applies', 'classes', 'show_text'])\n\nclass MatrixGrader(FormulaGrader):\n"), ("    def check_response(self, answer, student_input, **kwargs):\n        try:\n            with MathArray.enable_negative_powers(self.config['negative_powers']):\n                result = super(MatrixGrader, self).check_response(answer, student_input, **kwargs)\n        except ShapeError as err:\n            if self.config['suppress_matrix_messages']:\n                return {'ok': False, 'msg': '', 'grade_decimal': 0}\n            elif self.config['shape_errors']:\n                raise\n            else:\n                return {'ok': False, 'msg': str(err), 'grade_decimal': 0}\n        except InputTypeError as err:\n            if self.config['suppress_matrix_messages']:\n                return {'ok': False, 'msg': '', 'grade_decimal': 0}\n            elif self.config['answer_shape_mismatch']['is_raised']:\n                raise\n            else:\n                return {'ok': False, 'grade_decimal': 0, 'msg': str(err)}\n        except (ArgumentShapeError, MathArrayError) as err:\n            # If we're using matrix quantities for noncommutative scalars, we\n            # might get an ArgumentShapeError from using functions of matrices,\n            # or a MathArrayError from taking a funny power of a matrix.\n            # Suppress these too.\n            if self.config['suppress_matrix_messages']:\n                return {'ok': False, 'msg': '', 'grade_decimal': 0}\n            raise\n        return result\n", "    error_policies = (\n        ErrorPolicy(applies=lambda config: config['suppress_matrix_messages'], classes=MATRIX_ERRORS, show_text=False),\n        ErrorPolicy(applies=lambda config: not config['shape_errors'], classes=(ShapeError, ), show_text=True),\n        ErrorPolicy(applies=lambda config: not config['answer_shape_mismatch']['is_raised'], classes=(InputTypeError, ), show_text=True),\n    )\n\n    def check_response(self, answer, student_input, **kwargs):\n        try:\n            with MathArray.enable_negative_powers(self.config['negative_powers']):\n                return super(MatrixGrader, self).check_response(answer, student_input, **kwargs)\n        except MATRIX_ERRORS as err:\n            policy = next((entry for entry in self.error_policies if entry.applies(self.config)), None)\n            if policy is not None and not isinstance(err, policy.classes):\n                policy = None\n            if policy is None:\n                raise\n            return {'ok': False, 'msg': str(err) if policy.show_text else '', 'grade_decimal': 0}\n")], None, 'D5'),
     Mutant('copy-dropped', BASE, "            answercopy = answer.copy()\n", "            answercopy = answer\n", 'D4'),
     Mutant('narrow-in-place', BASE, "                answercopy['expect'] = entry\n" + _LOOP,
            "                answer['expect'] = entry\n                result = self.check_response(answer, student_input, **kwargs)\n                results.append(result)\n", 'D4'),
@@ -1094,5 +1152,6 @@ BENIGN = [
     Benign('results-alias', BASE, [("        results = []\n        for answer in answers:", "        collected = []\n        for answer in answers:"),
                                      ("                results.append(result)\n", "                collected.append(result)\n"),
                                      ("        # Now find the best result for the student\n", "        results = collected\n")], None),
+    Benign('policy-table-first-covering-row', 'mitxgraders/formulagrader/matrixgrader.py', [('class MatrixGrader(FormulaGrader):\n', "MATRIX_ERRORS = (ShapeError, InputTypeError, ArgumentShapeError, MathArrayError)\nErrorPolicy = namedtuple('ErrorPolicy', ['applies', 'classes', 'show_text'])\n\nclass MatrixGrader(FormulaGrader):\n"), ("    def check_response(self, answer, student_input, **kwargs):\n        try:\n            with MathArray.enable_negative_powers(self.config['negative_powers']):\n                result = super(MatrixGrader, self).check_response(answer, student_input, **kwargs)\n        except ShapeError as err:\n            if self.config['suppress_matrix_messages']:\n                return {'ok': False, 'msg': '', 'grade_decimal': 0}\n            elif self.config['shape_errors']:\n                raise\n            else:\n                return {'ok': False, 'msg': str(err), 'grade_decimal': 0}\n        except InputTypeError as err:\n            if self.config['suppress_matrix_messages']:\n                return {'ok': False, 'msg': '', 'grade_decimal': 0}\n            elif self.config['answer_shape_mismatch']['is_raised']:\n                raise\n            else:\n                return {'ok': False, 'grade_decimal': 0, 'msg': str(err)}\n        except (ArgumentShapeError, MathArrayError) as err:\n            # If we're using matrix quantities for noncommutative scalars, we\n            # might get an ArgumentShapeError from using functions of matrices,\n            # or a MathArrayError from taking a funny power of a matrix.\n            # Suppress these too.\n            if self.config['suppress_matrix_messages']:\n                return {'ok': False, 'msg': '', 'grade_decimal': 0}\n            raise\n        return result\n", "    error_policies = (\n        ErrorPolicy(applies=lambda config: config['suppress_matrix_messages'], classes=MATRIX_ERRORS, show_text=False),\n        ErrorPolicy(applies=lambda config: not config['shape_errors'], classes=(ShapeError, ), show_text=True),\n        ErrorPolicy(applies=lambda config: not config['answer_shape_mismatch']['is_raised'], classes=(InputTypeError, ), show_text=True),\n    )\n\n    def check_response(self, answer, student_input, **kwargs):\n        try:\n            with MathArray.enable_negative_powers(self.config['negative_powers']):\n                return super(MatrixGrader, self).check_response(answer, student_input, **kwargs)\n        except MATRIX_ERRORS as err:\n            policy = next((entry for entry in self.error_policies\n                           if entry.applies(self.config) and isinstance(err, entry.classes)), None)\n            if policy is None:\n                raise\n            return {'ok': False, 'msg': str(err) if policy.show_text else '', 'grade_decimal': 0}\n")], None),
     Benign('log-in-loop', BASE, _LOOP, _LOOP + "                self.log('checked one alternative')\n"),
 ]
